@@ -1,8 +1,8 @@
 /* C03.dir.header_matches: sqfs_dir_writer_end + add_header
  * (lib/sqfs/src/dir_writer.c) on an entry list of NENT nodes split into runs
  * of R0, R1, R2 entries (-D, concrete shape: all 7 compositions of 1..3
- * entries are enumerated; every field value symbolic, name lengths 1..4,
- * arbitrary name bytes, arbitrary writer position).
+ * entries are enumerated; every field value symbolic, name lengths L0,L1,L2
+ * in 1..4 (-D, concrete), arbitrary name bytes, arbitrary writer position).
  * get_conseq_entry_count is replaced (goto-instrument --replace-calls) by its
  * contract, proved in dir_run.c: it is called with the current block offset
  * and the first entry not yet written and returns the run length; the
@@ -43,6 +43,12 @@ struct sqfs_meta_writer_t { sqfs_object_t base; int opaque; };
 #endif
 #define NENT (R0 + R1 + R2)
 static const size_t g_runs[4] = { R0, R1, R2, 0 };
+#ifndef L0
+#define L0 1
+#define L1 3
+#define L2 4
+#endif
+static const size_t g_lens[3] = { L0, L1, L2 };
 static unsigned g_run_calls;
 static size_t g_ents_done;
 #define NAMEMAX 4
@@ -148,8 +154,7 @@ void harness(void)
 		n->e.inode_num = verif_nd_u32("num");
 		n->e.type = verif_nd_u16("type");
 		VERIF_ASSUME(n->e.type >= 1 && n->e.type <= 7);
-		n->e.name_len = verif_nd_size("len");
-		VERIF_ASSUME(n->e.name_len >= 1 && n->e.name_len <= NAMEMAX);
+		n->e.name_len = g_lens[i];	/* concrete: keeps positions concrete */
 		for (k = 0; k < NAMEMAX; ++k)
 			n->name[k] = (char)verif_nd_u8("name");
 	}
@@ -235,7 +240,7 @@ void harness(void)
 	VERIF_ASSERT(run == g_run_calls && g_ents_done == NENT,
 		     "C03.dir.header_matches.decodes");
 	VERIF_COVER(g_blk != blk0);
-	VERIF_COVER(g_blk == blk0 && n0.e.name_len == NAMEMAX);
+	VERIF_COVER(g_blk == blk0);
 #if R0 > 1
 	VERIF_COVER(n1.e.inode_num < n0.e.inode_num);
 #endif
